@@ -10,6 +10,15 @@ import (
 func init() {
 	register("dbuf", "C08: operation sequences on dataBuffer and pipe (request-body path of the HTTP/2 server)", func(c *ctx) {
 		c.deferred = true
+		// the status gates of the response path: EVERY status code 0..1100, in batches (correspondence with Model/H2Resp)
+		for lo := 0; lo <= 1100; lo += 100 {
+			var cs []string
+			for k := lo; k < lo+100 && k <= 1100; k++ {
+				cs = append(cs, fmt.Sprint(k))
+			}
+			c.tag("status-gates")
+			c.op("h2status codes=" + strings.Join(cs, ","))
+		}
 		sizes := []int{0, 1, 2, 100, 1023, 1024, 1025, 2047, 2048, 2049, 4096, 4097, 8192, 8193, 16383, 16384, 16385, 20000, 40000}
 		for i := 0; i < c.count; i++ {
 			r := c.rng.fork()
